@@ -355,7 +355,12 @@ func mergeConfigPrependArr(opts *options, to, from *Config) Error {
 		a: make([]value, 0, len(a1)+len(a2)),
 	}
 	fields.append(parent, a2)
-	fields.append(parent, a1)
+	// the elements of to move up, they are not replaced by copies: child
+	// configurations obtained for them before stay views of them
+	for _, v := range a1 {
+		fields.a = append(fields.a, v)
+		renumber(v, len(fields.a)-1)
+	}
 	*to.fields = fields
 	return nil
 }
